@@ -261,6 +261,121 @@ def OInv (o : Overlay) : Prop := Inv o.ix o.feats ∧ Uniq o.feats ∧ Uniq o.ba
 theorem oinv_init (base : List Feature) (hb : Uniq base) : OInv ⟨base, [], []⟩ :=
   ⟨Inv_empty, by simp [Uniq], hb, by intro y _ _ t _; rfl⟩
 
+/-- `MutableOverlayWorld.FindReferences` answers, without repetitions, in every state -/
+theorem find_terminates (o : Overlay) (id : Id) (typed : List Nat) :
+    ∃ L, o.find id typed = some L ∧ L.Nodup := by
+  obtain ⟨B, hB, _, _⟩ := basicFind_spec (Inv_fill o.base) id []
+  obtain ⟨A, hA, _⟩ := fold_collect o.ix typed (B.filter (fun b => !hasFeature o.feats b)) []
+  obtain ⟨R, hR, _⟩ := findReferences_spec o.ix id typed
+  have hcollect : o.collect id typed = some (A ++ R) := by
+    simp only [Overlay.collect, baseFind, hB, hA, hR]
+  exact ⟨dedup (((A ++ R).filter o.has).filter (typeOk typed)), by simp only [Overlay.find, hcollect], nodup_dedup _⟩
+
+/-- the reference maintenance of `MutableOverlayWorld.AddFeature` keeps the overlay's index the inverse
+of the overlay's features in EVERY state (no copy discipline needed for this part) -/
+theorem overlay_add_index (o : Overlay) (f : Feature) (hi : Inv o.ix o.feats) (hu : Uniq o.feats)
+    (hub : Uniq o.base) :
+    ∃ o', o.add f = some o' ∧ Inv o'.ix o'.feats ∧ Uniq o'.feats ∧ o'.base = o.base := by
+  obtain ⟨refIds, hfind, hnd⟩ := find_terminates o f.id []
+  unfold Overlay.add
+  simp only [hfind]
+  -- names
+  generalize hin : refIds.filter (hasFeature o.feats) = inOverlay
+  generalize hcp : (refIds.filter (fun r => !hasFeature o.feats r && decide (r ≠ f.id))).filterMap (findFeature o.base) = copies
+  have hcopy : ∀ c, c ∈ copies ↔ (c ∈ o.base ∧ c.id ∈ refIds ∧ hasFeature o.feats c.id = false ∧ c.id ≠ f.id) := by
+    intro c
+    rw [← hcp, List.mem_filterMap]
+    constructor
+    · rintro ⟨r, hr, hf⟩
+      obtain ⟨h1, h2⟩ := findFeature_some hf
+      obtain ⟨hr1, hr2⟩ := List.mem_filter.mp hr
+      simp only [Bool.and_eq_true, Bool.not_eq_true', decide_eq_true_eq] at hr2
+      subst h2
+      exact ⟨h1, hr1, hr2.1, hr2.2⟩
+    · rintro ⟨h1, h2, h3, h4⟩
+      exact ⟨c.id, List.mem_filter.mpr ⟨h2, by simp [h3, h4]⟩, findFeature_of_mem hub h1⟩
+  have hcopies_uniq : Uniq copies := by
+    unfold Uniq
+    rw [← hcp]
+    exact List.Nodup.sublist (filterMap_ids_sublist o.base _) (List.Nodup.sublist List.filter_sublist hnd)
+  have hR : ∀ g ∈ (findFeature o.feats f.id).toList ++ current o.feats inOverlay, g ∈ o.feats := by
+    intro g hg
+    rcases List.mem_append.mp hg with hg | hg
+    · cases hf : findFeature o.feats f.id with
+      | none => simp [hf] at hg
+      | some e => simp only [hf, Option.toList_some, List.mem_singleton] at hg; subst hg; exact (findFeature_some hf).1
+    · exact (mem_current hg).1
+  obtain ⟨ix1, h1, hi1⟩ := removeAll_inv _ o.ix o.feats hi (fun g hg h hh e => uniq_eq hu hh (hR g hg) e)
+  simp only [h1]
+  obtain ⟨hu1, hm1⟩ := fold_put copies o.feats hu hcopies_uniq (fun c hc => ((hcopy c).mp hc).2.2.1)
+  have hu' := uniq_put hu1 f
+  have hmem' : ∀ g, g ∈ putFeature (copies.foldl putFeature o.feats) f ↔
+      (g = f ∨ ((g ∈ o.feats ∨ g ∈ copies) ∧ g.id ≠ f.id)) := by
+    intro g; rw [mem_put hu1, hm1 g]
+  refine ⟨_, rfl, ?_, hu', rfl⟩
+  · -- the index
+    have hi2 := Inv_fill_aux (f :: (current (putFeature (copies.foldl putFeature o.feats) f) inOverlay ++ copies)) ix1 _ hi1
+    apply Inv_congr _ hi2
+    intro g
+    rw [hmem' g]
+    simp only [List.mem_append, List.mem_reverse, List.mem_cons, List.mem_filter, decide_eq_true_eq]
+    constructor
+    · rintro ((h | h | h) | ⟨h1', h2'⟩)
+      · exact Or.inl h
+      · exact (hmem' g).mp (mem_current h).1
+      · exact Or.inr ⟨Or.inr h, ((hcopy g).mp h).2.2.2⟩
+      · by_cases hgf : g.id = f.id
+        · exfalso
+          apply h2'
+          have hex := findFeature_of_mem hu h1'
+          rw [hgf] at hex
+          simp [hex]
+        · exact Or.inr ⟨Or.inl h1', hgf⟩
+    · rintro (h | ⟨h1' | h1', h2'⟩)
+      · exact Or.inl (Or.inl h)
+      · by_cases hino : g.id ∈ inOverlay
+        · exact Or.inl (Or.inr (Or.inl (current_mem hu' ((hmem' g).mpr (Or.inr ⟨Or.inl h1', h2'⟩)) hino)))
+        · refine Or.inr ⟨h1', ?_⟩
+          intro hm
+          obtain ⟨x, hx, hxid⟩ := List.mem_map.mp hm
+          rcases List.mem_append.mp hx with hx | hx
+          · cases hf : findFeature o.feats f.id with
+            | none => simp [hf] at hx
+            | some e =>
+              simp only [hf, Option.toList_some, List.mem_singleton] at hx
+              subst hx
+              exact h2' (by rw [← hxid]; exact (findFeature_some hf).2)
+          · exact hino (by rw [← hxid]; exact (mem_current hx).2)
+      · exact Or.inl (Or.inr (Or.inr h1'))
+
+/-- `AddTag` / `RemoveTag` copying a base-only feature into the overlay (searchable tag): the copy is
+indexed, so the overlay's index stays the inverse of the overlay's features -/
+theorem copyUp_index (o : Overlay) (id : Id) (hi : Inv o.ix o.feats) (hu : Uniq o.feats) :
+    Inv (o.copyUp id).ix (o.copyUp id).feats ∧ Uniq (o.copyUp id).feats ∧ (o.copyUp id).base = o.base := by
+  unfold Overlay.copyUp
+  cases h1 : findFeature o.feats id with
+  | some g => exact ⟨hi, hu, rfl⟩
+  | none =>
+    cases h2 : findFeature o.base id with
+    | none => exact ⟨hi, hu, rfl⟩
+    | some f =>
+      refine ⟨?_, uniq_put hu f, rfl⟩
+      apply Inv_congr _ (Inv_add hi f)
+      intro g
+      rw [mem_put hu]
+      have hfid := (findFeature_some h2).2
+      constructor
+      · intro hg
+        rcases List.mem_cons.mp hg with rfl | hg
+        · exact Or.inl rfl
+        · refine Or.inr ⟨hg, ?_⟩
+          intro e
+          have := findFeature_of_mem hu hg
+          rw [e, hfid, h1] at this; cases this
+      · rintro (rfl | ⟨hg, _⟩)
+        · exact List.mem_cons_self
+        · exact List.mem_cons_of_mem _ hg
+
 /-- **`MutableOverlayWorld.AddFeature` keeps the overlay's index the inverse of the overlay's
 features and the copy discipline `UpClosed`.** -/
 theorem overlay_add_inv (o : Overlay) (f : Feature) (ho : OInv o) :
@@ -439,5 +554,39 @@ theorem runOOps_inv : ∀ (ops : List OOp) (o : Overlay), OInv o → ∃ o', run
     | snap =>
       obtain ⟨o2, h2, ho2⟩ := ih o.snapshot (oinv_init _ (uniq_merged o ho.2.1 ho.2.2.1))
       exact ⟨o2, by simp only [runOOps]; exact h2, ho2⟩
+
+/-- edits of a mutable overlay world including the tag edits that copy a base feature up -/
+inductive TOp where
+  | add (f : Feature)
+  | snap
+  | copyUp (id : Id)
+
+def runTOps : Overlay → List TOp → Option Overlay
+  | o, [] => some o
+  | o, .add f :: ops => match o.add f with
+    | some o' => runTOps o' ops
+    | none => none
+  | o, .snap :: ops => runTOps o.snapshot ops
+  | o, .copyUp id :: ops => runTOps (o.copyUp id) ops
+
+theorem runTOps_index : ∀ (ops : List TOp) (o : Overlay), Inv o.ix o.feats → Uniq o.feats → Uniq o.base →
+    ∃ o', runTOps o ops = some o' ∧ Inv o'.ix o'.feats ∧ Uniq o'.feats ∧ Uniq o'.base := by
+  intro ops
+  induction ops with
+  | nil => intro o h1 h2 h3; exact ⟨o, rfl, h1, h2, h3⟩
+  | cons op ops ih =>
+    intro o h1 h2 h3
+    cases op with
+    | add f =>
+      obtain ⟨o1, e1, i1, u1, b1⟩ := overlay_add_index o f h1 h2 h3
+      obtain ⟨o2, e2, r⟩ := ih o1 i1 u1 (by rw [b1]; exact h3)
+      exact ⟨o2, by simp only [runTOps, e1]; exact e2, r⟩
+    | snap =>
+      obtain ⟨o2, e2, r⟩ := ih o.snapshot Inv_empty (by simp [Uniq, Overlay.snapshot]) (uniq_merged o h2 h3)
+      exact ⟨o2, by simp only [runTOps]; exact e2, r⟩
+    | copyUp id =>
+      obtain ⟨i1, u1, b1⟩ := copyUp_index o id h1 h2
+      obtain ⟨o2, e2, r⟩ := ih (o.copyUp id) i1 u1 (by rw [b1]; exact h3)
+      exact ⟨o2, by simp only [runTOps]; exact e2, r⟩
 
 end B6.Lemmas.RefWorld
